@@ -109,6 +109,12 @@ let rec map f = function
 | [] -> []
 | a :: t -> (f a) :: (map f t)
 
+(** val fold_right : ('a2 -> 'a1 -> 'a1) -> 'a1 -> 'a2 list -> 'a1 **)
+
+let rec fold_right f a0 = function
+| [] -> a0
+| b :: t -> f b (fold_right f a0 t)
+
 (** val existsb : ('a1 -> bool) -> 'a1 list -> bool **)
 
 let rec existsb f = function
@@ -1347,6 +1353,38 @@ let rec coins_equal a b =
             then if Z.eqb xa xb then coins_equal a' b' else Some false
             else None
        else Some false)
+
+(** val insert_coin : coin -> coins -> coins **)
+
+let rec insert_coin c l = match l with
+| [] -> c :: []
+| x :: r ->
+  (match bcompare (fst c) (fst x) with
+   | Gt -> x :: (insert_coin c r)
+   | _ -> c :: l)
+
+(** val sort_coins : coins -> coins **)
+
+let sort_coins l =
+  fold_right insert_coin [] l
+
+(** val has_dup : coins -> bool **)
+
+let rec has_dup = function
+| [] -> false
+| x :: r ->
+  (match r with
+   | [] -> false
+   | y :: _ -> (||) (beqb (fst x) (fst y)) (has_dup r))
+
+(** val new_coins : coins -> coins option **)
+
+let new_coins cs =
+  match remove_zero cs with
+  | [] -> Some []
+  | c :: l ->
+    let s = sort_coins (c :: l) in
+    if has_dup s then None else if coins_valid s then Some s else None
 
 type 'v amap = (bytes * 'v) list
 
